@@ -23,6 +23,7 @@ import (
 	"github.com/aperturerobotics/bifrost/peer"
 	"github.com/aperturerobotics/bifrost/tptaddr"
 	"github.com/aperturerobotics/bifrost/transport/common/dialer"
+	transport_quic "github.com/aperturerobotics/bifrost/transport/common/quic"
 	"github.com/aperturerobotics/bifrost/util/verifhook"
 	"github.com/aperturerobotics/controllerbus/directive"
 	"github.com/aperturerobotics/util/backoff"
@@ -68,7 +69,14 @@ type scenario struct {
 	// network holds in flight while the request for X is made; the network lets
 	// go once the request for X has joined it; seq[0] says who answers then
 	overlap string
+	// alias: the address string used in every dial request: another spelling of A
+	// (registered host name, other letter case, trailing dot) that the network
+	// resolves to A; the sessions' remote address string is the canonical "A"
+	alias string
 }
+
+// aliasSpellings: spellings of address A accepted by the harness' networks ("host-a" is a registered host name).
+var aliasSpellings = []string{"host-a", "a", "A.", "HOST-A."}
 
 func (s scenario) String() string {
 	c := ""
@@ -86,6 +94,9 @@ func (s scenario) String() string {
 	}
 	if s.overlap != "" {
 		c += "+joinsInflightDialFor:" + s.overlap
+	}
+	if s.alias != "" {
+		c += "+dialedAs:" + s.alias
 	}
 	return fmt.Sprintf("%s/%s/%s%s", s.tpt, s.m, s.seq, c)
 }
@@ -160,6 +171,8 @@ type fabric interface {
 	Hold()
 	Held() int64
 	Release()
+	// Alias registers a host name that resolves to A
+	Alias(name string)
 }
 
 type peerEnd struct {
@@ -187,6 +200,7 @@ func (f *dgramFabric) Dropped() int64 { return f.n.Dropped(addrA) }
 func (f *dgramFabric) Hold()          { f.n.Hold(addrA) }
 func (f *dgramFabric) Held() int64    { return f.n.Held(addrA) }
 func (f *dgramFabric) Release()       { f.n.Release(addrA) }
+func (f *dgramFabric) Alias(a string) { f.n.Alias(a, addrA) }
 
 type streamFabric struct {
 	n    *g5net.StreamNet
@@ -208,6 +222,7 @@ func (f *streamFabric) Dropped() int64 { return f.n.Refused() }
 func (f *streamFabric) Hold()          { f.n.Hold(addrA) }
 func (f *streamFabric) Held() int64    { return f.n.Held(addrA) }
 func (f *streamFabric) Release()       { f.n.Release(addrA) }
+func (f *streamFabric) Alias(a string) { f.n.Alias(a, addrA) }
 
 // gate holds the link dialer of one controller at the hook event
 // "tc.linkdialer.result" (dial result obtained, not yet recorded).
@@ -273,6 +288,7 @@ type run struct {
 type dialLog struct {
 	peer          string
 	failed, fatal atomic.Int64
+	lastErr       atomic.Value // string: error of the latest failed attempt (witness only)
 }
 
 func (d *dialLog) Levels() []logrus.Level { return []logrus.Level{logrus.WarnLevel} }
@@ -280,6 +296,9 @@ func (d *dialLog) Levels() []logrus.Level { return []logrus.Level{logrus.WarnLev
 func (d *dialLog) Fire(e *logrus.Entry) error {
 	if p, _ := e.Data["dial-peer-id"].(string); p != d.peer {
 		return nil
+	}
+	if err, ok := e.Data[logrus.ErrorKey].(error); ok && err != nil {
+		d.lastErr.Store(err.Error())
 	}
 	switch e.Message {
 	case "dialer errored":
@@ -305,7 +324,7 @@ func (u *run) witness(extra map[string]any) map[string]any {
 	w := map[string]any{
 		"scenario": u.sc.String(), "service_sequence": u.sc.seq, "request": u.sc.m.String(),
 		"peer_X": u.x.ID.ID.String(), "impostor_Y": u.y.ID.ID.String(), "local_L": u.l.ID.ID.String(),
-		"address": addrA, "values": append([]value(nil), u.values...), "history": append([]string(nil), u.history...),
+		"address": addrA, "address_string_dialed": u.opts.GetAddress(), "values": append([]value(nil), u.values...), "history": append([]string(nil), u.history...),
 		"dial_traffic_to_A": u.fab.Sent(),
 		"link_events_at_L":  evStrings(u.l.Rec), "link_events_at_X": evStrings(u.x.Rec), "link_events_at_Y": evStrings(u.y.Rec),
 	}
@@ -419,7 +438,7 @@ func (u *run) request(ctx context.Context, force bool) {
 		}
 		u.r.Count("requests_DialTptAddr", 1)
 		o := u.opts.CloneVT()
-		o.Address = g5net.TransportType + "|" + addrA
+		o.Address = g5net.TransportType + "|" + u.opts.GetAddress()
 		var once sync.Once
 		_, ref, err := u.l.TB.Bus.AddDirective(tptaddr.NewDialTptAddr(o, u.l.ID.ID, u.x.ID.ID),
 			directive.NewCallbackHandler(func(av directive.AttachedValue) {
@@ -544,6 +563,129 @@ func (u *run) stuckDetector(dump *[]string) func() bool {
 	}
 }
 
+// liveLinkAtL: some link at L may be alive: a link reported established to L's
+// handler without a loss report, or a link the transport holds for the address
+// (canonical or dialed spelling) whose loss has not been reported. While such a
+// link exists "already connected" is a legitimate reason not to dial.
+func (u *run) liveLinkAtL(ctx context.Context) bool {
+	lost := map[link.Link]bool{}
+	evs, _ := u.l.Rec.Events()
+	for _, e := range evs {
+		if !e.Established {
+			lost[e.Link] = true
+		}
+	}
+	for _, e := range evs {
+		if e.Established && !lost[e.Link] {
+			return true
+		}
+	}
+	tpt, err := u.l.Ctrl.GetTransport(ctx)
+	if err != nil {
+		return true
+	}
+	lk, ok := tpt.(interface {
+		LookupLinkWithAddr(string) (*transport_quic.Link, bool)
+	})
+	if !ok {
+		return true
+	}
+	for _, a := range []string{addrA, u.opts.GetAddress()} {
+		if l, ok := lk.LookupLinkWithAddr(a); ok && l != nil && !lost[link.Link(l)] {
+			return true
+		}
+	}
+	return false
+}
+
+// noDial is the finding of noDialDetector.
+type noDial struct {
+	fired    bool
+	failures int64 // failed dial attempts for X counted while nothing went towards A
+	lastErr  string
+	dump     []string
+}
+
+const (
+	noDialK       = 25 // failed dial attempts for X per window
+	noDialWindows = 3  // consecutive windows
+)
+
+// noDialDetector returns a tick function for wait(): a progress oracle in
+// logical steps. "Keeps retrying" has to mean real dial attempts: it fires when
+// the dialer for X reported noDialK failed attempts ("dialer errored", logged by
+// the code under test once per attempt) in each of noDialWindows consecutive
+// windows while NOT ONE unit of dial traffic (datagram resp. connection attempt)
+// went towards A in the harness' network, no link of L was alive (see
+// liveLinkAtL) and, at the end of every window, no goroutine was inside the
+// transport's per-address dialer. On the unchanged tree every attempt that is not
+// refused because of a live link either waits for an in-flight dialer or starts
+// one, which calls the dial function (>= 1 datagram / connection attempt).
+func (u *run) noDialDetector(ctx context.Context, res *noDial) func() bool {
+	have, windows := false, 0
+	var baseSent, baseFailed, firstFailed int64
+	reset := func() {
+		// window start: traffic first, failures second (at the end the other way round)
+		baseSent = u.fab.Sent()
+		baseFailed = u.dlog.failed.Load()
+		if !have || windows == 0 {
+			firstFailed = baseFailed
+		}
+		have = true
+	}
+	return func() bool {
+		fNow := u.dlog.failed.Load()
+		sNow := u.fab.Sent()
+		if !have || sNow != baseSent || u.liveLinkAtL(ctx) {
+			windows = 0
+			reset()
+			return false
+		}
+		if fNow-baseFailed < noDialK {
+			return false
+		}
+		// a window is full; nobody may be inside the per-address dialer (a labelled or an unlabelled goroutine)
+		all, _ := g5net.GoroutinesAll(u.label)
+		for _, b := range all {
+			if strings.Contains(b, "transport/common/quic.(*Dialer).Execute") && (strings.Contains(b, `"g5case":"`+u.label+`"`) || !strings.Contains(b, `"g5case":`)) {
+				windows = 0
+				reset()
+				return false
+			}
+		}
+		u.r.Count("no_dial_detector_windows", 1)
+		if u.fab.Sent() != baseSent || u.liveLinkAtL(ctx) {
+			windows = 0
+			reset()
+			return false
+		}
+		windows++
+		if windows < noDialWindows {
+			baseFailed = fNow // next window; the traffic baseline stays
+			return false
+		}
+		res.fired, res.failures = true, fNow-firstFailed
+		res.lastErr, _ = u.dlog.lastErr.Load().(string)
+		_, res.dump = g5net.GoroutinesAll(u.label)
+		if len(res.dump) > 40 {
+			res.dump = res.dump[:40]
+		}
+		return true
+	}
+}
+
+// either combines tick functions.
+func either(ts ...func() bool) func() bool {
+	return func() bool {
+		for _, t := range ts {
+			if t() {
+				return true
+			}
+		}
+		return false
+	}
+}
+
 func (u *run) setServer(p byte) {
 	u.mu.Lock()
 	u.phase++
@@ -651,7 +793,7 @@ func (u *run) rawDial(ctx context.Context, p peer.ID) (link.Link, error) {
 	if !ok {
 		return nil, dialer.ErrNotTransportDialer
 	}
-	lnk, _, err := td.DialPeer(ctx, p, addrA)
+	lnk, _, err := td.DialPeer(ctx, p, u.opts.GetAddress())
 	return lnk, err
 }
 
@@ -860,9 +1002,16 @@ func (u *run) execute(ctx context.Context) (complete bool) {
 		switch p {
 		case 'N':
 			var dump []string
+			var nd noDial
 			ok, stopped := wait(func() bool {
 				return u.valueCount() > v0 || u.fab.Dropped()-drop0 >= 2
-			}, u.stuckDetector(&dump))
+			}, either(u.stuckDetector(&dump), u.noDialDetector(ctx, &nd)))
+			if stopped && nd.fired {
+				// not judged here (X is not reachable); the obligation is checked when X serves A again
+				u.logf("phase %d: the dialer for X keeps failing (%d attempts, last error %q) but nothing goes towards A", i+1, nd.failures, nd.lastErr)
+				r.Count("phases_left_because_retries_did_not_dial", 1)
+				continue
+			}
 			if stopped {
 				// not judged here (X is not reachable); the obligation is checked when X serves A again
 				u.logf("phase %d: a request is outstanding but nothing dials A any more", i+1)
@@ -876,6 +1025,7 @@ func (u *run) execute(ctx context.Context) (complete bool) {
 			r.Count("datagrams_to_A_dropped_nobody_serving", int(u.fab.Dropped()-drop0))
 		case 'Y':
 			var dump []string
+			var nd noDial
 			ok, stopped := wait(func() bool {
 				if u.valueCount() > v0 {
 					return true
@@ -887,7 +1037,12 @@ func (u *run) execute(ctx context.Context) (complete bool) {
 					return true
 				}
 				return u.fab.Sent()-sent0 >= 30
-			}, u.stuckDetector(&dump))
+			}, either(u.stuckDetector(&dump), u.noDialDetector(ctx, &nd)))
+			if stopped && nd.fired {
+				u.logf("phase %d: the dialer for X keeps failing (%d attempts, last error %q) but nothing goes towards A", i+1, nd.failures, nd.lastErr)
+				r.Count("phases_left_because_retries_did_not_dial", 1)
+				continue
+			}
 			if stopped {
 				u.logf("phase %d: a request is outstanding but nothing dials A any more", i+1)
 				r.Count("phases_left_because_dialing_had_stopped", 1)
@@ -902,6 +1057,7 @@ func (u *run) execute(ctx context.Context) (complete bool) {
 		case 'X':
 			// obligation: the request is satisfied with a link to X.
 			var lastDump []string
+			var nd noDial
 			ok, stuck := wait(func() bool {
 				u.mu.Lock()
 				pend := u.pending
@@ -911,11 +1067,19 @@ func (u *run) execute(ctx context.Context) (complete bool) {
 					return false
 				}
 				return !pend
-			}, u.stuckDetector(&lastDump))
+			}, either(u.stuckDetector(&lastDump), u.noDialDetector(ctx, &nd)))
 			if stuck {
 				u.mu.Lock()
 				outstanding := u.pending || u.sc.m == mEstablishLink
 				u.mu.Unlock()
+				if outstanding && nd.fired {
+					u.logf("the dialer for X keeps failing (%d attempts, last error %q) but nothing goes towards A although X serves it", nd.failures, nd.lastErr)
+					r.Count("no_dial_detector_fired_while_X_serves", 1)
+					r.Violation("request-for-x-retried-without-dialing:"+u.sc.m.String()+":"+u.sc.tpt,
+						fmt.Sprintf("A is served by X and a request for X at A is outstanding; the dialer for X reports one failed attempt after the other (%d, last error %q) but not a single datagram / connection attempt goes towards A any more, no link of L is alive and nobody is inside the transport's dialer: the retries never reach the network, X is never noticed (scenario %s)", nd.failures, nd.lastErr, u.sc),
+						u.witness(map[string]any{"failed_dial_attempts_without_traffic": nd.failures, "last_dial_error": nd.lastErr, "goroutines_of_case": nd.dump}))
+					return true
+				}
 				if !outstanding {
 					// the harness itself has not (re-)issued the request: nothing to blame the code for
 					r.Inconclusive(fmt.Sprintf("%s phase %d: no request outstanding while waiting for a link to X", u.sc, i+1))
@@ -1011,6 +1175,9 @@ func runScenario(r *vf.Run, sc scenario, pool []*keys.Identity) {
 		lg.AddHook(dlog)
 		le := logrus.NewEntry(lg).WithField("case", label)
 		u := &run{r: r, sc: sc, label: label, t0: t0, dlog: dlog, opts: &dialer.DialerOpts{Address: addrA, Backoff: backoffOpts()}}
+		if sc.alias != "" {
+			u.opts.Address = sc.alias
+		}
 		var spm map[string]*dialer.DialerOpts
 		if sc.m == mEstablishLink {
 			spm = map[string]*dialer.DialerOpts{pool[1].ID.String(): u.opts}
@@ -1043,6 +1210,7 @@ func runScenario(r *vf.Run, sc scenario, pool []*keys.Identity) {
 			return
 		}
 		defer u.l.TB.Release()
+		u.fab.Alias("host-a")
 		if sc.concurrent {
 			// competing request: Y is legitimately requested at the same address
 			go func() {
@@ -1144,6 +1312,43 @@ func TestCheck(t *testing.T) {
 			}
 		}
 	}
+	// the address is dialed under another spelling than the one its sessions report as their remote address
+	// (registered host name / other letter case / trailing dot): link up, link lost, dialed again by the alias
+	// while X, the impostor or nobody serves it
+	{
+		k := 0
+		spell := func() string { k++; return aliasSpellings[k%len(aliasSpellings)] }
+		for _, tp := range []string{"pconn", "conn"} {
+			for _, m := range []method{mDialPeerAddr, mDialTptAddr, mEstablishLink} {
+				ss := []string{"XNX", "XYX"}
+				if tp == "conn" && r.Quick() {
+					ss = []string{[]string{"XNX", "XYX", "XYX"}[m]}
+					if m == mDialTptAddr {
+						continue
+					}
+				}
+				if !r.Quick() {
+					ss = nil
+					for _, q := range seqs(3) {
+						if strings.Contains(q[:len(q)-1], "X") {
+							ss = append(ss, q)
+						}
+					}
+					ss = append(ss, "XNYX", "XYNX", "YXNX")
+				}
+				for _, q := range ss {
+					scs = append(scs, scenario{tpt: tp, m: m, seq: q, alias: spell()})
+				}
+			}
+			scs = append(scs, scenario{tpt: tp, m: mDialPeerAddr, seq: "YX", linkedY: true, alias: spell()})
+			scs = append(scs, scenario{tpt: tp, m: mDialPeerAddr, seq: "XNX", eager: true, alias: spell()})
+			if tp == "pconn" || !r.Quick() {
+				scs = append(scs, scenario{tpt: tp, m: mDialPeerAddr, seq: "XNYX", alias: spell()})
+				scs = append(scs, scenario{tpt: tp, m: mEstablishLink, seq: "YNX", linkedY: true, alias: spell()})
+				scs = append(scs, scenario{tpt: tp, m: mDialTptAddr, seq: "YX", overlap: "any", alias: spell()})
+			}
+		}
+	}
 	if !r.Quick() {
 		seen := map[string]bool{}
 		// there are only 24 + 48 + 96 = 168 sequences of length 4..6 without equal neighbours
@@ -1167,6 +1372,9 @@ func TestCheck(t *testing.T) {
 				sc.linkedY = true
 			case k == 1 && b[0] != 'N' && !sc.concurrent:
 				sc.overlap = []string{"any", "Y", "X"}[rng.IntN(3)]
+			}
+			if rng.IntN(3) == 0 {
+				sc.alias = aliasSpellings[rng.IntN(len(aliasSpellings))]
 			}
 			scs = append(scs, sc)
 		}
